@@ -54,6 +54,16 @@ var stressFramedPH = func(a, b int) int {
 	return a + b
 }
 
+//go:noinline
+func stressPlain(a, b int) int {
+	var buf [8]int
+	for i := range buf {
+		buf[i] = a + i
+	}
+	vkit.Sink(uint64(buf[b&7]))
+	return buf[b&7] + b
+}
+
 var stressLeafIPH = func(x int) int {
 	x = x*31 + 7
 	x ^= x >> 5
@@ -92,6 +102,9 @@ func stressChild(mode string, secs int) {
 		}
 		loops = append(loops, func(i int) bool { return stressLeafI(i) == i*3+1+1000 },
 			func(i int) bool { x := float64(i); return stressLeafF(x) == x*3.25+1.5+0.5 })
+	case "entryjump":
+		b.Func(stressPlain).Apply(func(a, b int) int { return a - b })
+		loops = append(loops, func(i int) bool { return stressPlain(i, 3) == i-3 })
 	case "framed":
 		b.Func(stressFramed).Origin(&stressFramedPH).Apply(func(a, b int) int { return stressFramedPH(a, b) + 1 })
 		mm, judged := frameMismatch(reflect.ValueOf(stressFramedPH).Pointer())
@@ -207,6 +220,18 @@ func TestVerifC11Preempt(t *testing.T) {
 	} else {
 		s.Class("framed-pair-died-under-the-collection-stress(open finding, recorded)")
 		s.Sample(map[string]string{"mode": "framed", "exit": fmt.Sprint(rc), "output": head(out)})
+	}
+	// the same stress on a plainly mocked function with a small frame (no placeholder involved): the tail of the entry jump
+	// is the second site of the open finding; its window is one instruction, a death is rare. Recorded, thorough tier only.
+	if vkit.Tier() == "thorough" {
+		rc, out = run("entryjump")
+		s.Eval(1)
+		if rc == 0 {
+			s.Class("plain-mock-of-a-framed-function-survived-the-collection-stress")
+		} else {
+			s.Class("plain-mock-of-a-framed-function-died-under-the-collection-stress(open finding, recorded)")
+			s.Sample(map[string]string{"mode": "entryjump", "exit": fmt.Sprint(rc), "output": head(out)})
+		}
 	}
 	s.Done()
 }
